@@ -110,6 +110,17 @@ func VerifC05Iter() {
 		}
 	}
 	verifContext("C05.iter")
+	// options that belong to other operations (an encode option, a target directory, file extensions): a walk of a
+	// fresh tree must not be affected by them
+	var opts []Option
+	switch verifChoose("foreignOption", 0, 3) {
+	case 1:
+		opts = append(opts, encOption(int(verifChoose("enc", 1, 3))))
+	case 2:
+		opts = append(opts, WithTargetDir("elsewhere"))
+	case 3:
+		opts = append(opts, WithFileExtensions([]string{verifStr("ext")}))
+	}
 	switch form {
 	case 0:
 		err := WalkFromRoot(root.real, func(wn *WalkerNode) error {
@@ -119,14 +130,14 @@ func VerifC05Iter() {
 				return errVerifStop
 			}
 			return nil
-		})
+		}, opts...)
 		if stopAt < len(order) {
 			verifAssert(err == errVerifStop, "C05.iter.stop.err")
 		} else {
 			verifAssert(err == nil, "C05.iter.nil")
 		}
 	case 1:
-		for wn, err := range WalkIterFromRoot(root.real) {
+		for wn, err := range WalkIterFromRoot(root.real, opts...) {
 			verifAssert(err == nil, "C05.iter.nil")
 			check(wn)
 			seen++
@@ -135,7 +146,7 @@ func VerifC05Iter() {
 			}
 		}
 	case 2:
-		for wn, err := range WalkIterProgrammably(root.real) {
+		for wn, err := range WalkIterProgrammably(root.real, opts...) {
 			verifAssert(err == nil, "C05.iter.nil")
 			check(wn)
 			seen++
